@@ -152,6 +152,15 @@ pub fn test_c12(c: &Case) -> Verdict {
 
 pub const RULE_C12: &str = "CKKS layer: cases = the straight-line CKKS programs of C16 (backend, parameter set, 2 fresh encryptions + 1..13 steps among add/sub/mul/square/neg/pow2/rotate/conjugate/rescale/align and the plaintext forms, into or in place). Every library call of the program receives a 64-byte aligned scratch window of exactly the bytes its own ckks_*_tmp_bytes query returns (queried with the larger of destination and operands where the query takes one layout), inside guard regions and filled with garbage; the program runs with ample scratch and twice with exact windows (two fills). Violation = panic in exact mode only, damaged guard, or final registers (metadata and raw digits) differing between the three runs. non-trivial = at least one call with a non-zero query.";
 
+fn mem_only(f: fn(&Case) -> Verdict) -> impl Fn(&Case) -> Verdict + Sync {
+    move |c| match f(c) {
+        Verdict::Fail { sig, .. } if !sig.contains("guard-damaged") => Verdict::pass(false, &["value_oracle_or_panic_ignored_here"]),
+        v => v,
+    }
+}
+
+pub const RULE_C17: &str = "CKKS level (AddressSanitizer build of pzv-ckks): the generated straight-line programs of C16 (every ciphertext, plaintext and key an exact-size heap block) and the same programs with exact-size scratch windows. Oracle: no sanitizer report, guard regions intact. non-trivial = the C16 rule.";
+
 fn op_strategy() -> impl Strategy<Value = Op> {
     prop_oneof![
         2 => (any::<u8>(), 2u8..=8, 12u8..=48, prop_oneof![2 => 4u8..=12, 1 => 13u8..=34], any::<u8>(), any::<u64>()).prop_map(|(dst, limbs, ld, ptlb, mag_bits, seed)| Op::Enc { dst, limbs, ld, ptlb, mag_bits, seed }),
@@ -193,9 +202,25 @@ fn main() {
         if prop == "C12" {
             std::process::exit(ctx.replay_case::<Case, _>(&sub, &case, test_c12));
         }
+        if prop == "C17" {
+            let _ = pzv_common::driver::arm_sanitizer_callback(&ctx.property, &ctx.root);
+            let f: fn(&Case) -> Verdict = if sub == "asan_ckks_exact_scratch" { test_c12 } else { test };
+            std::process::exit(ctx.replay_case::<Case, _>(&sub, &case, mem_only(f)));
+        }
         std::process::exit(ctx.replay_case::<Case, _>(&sub, &case, test));
     }
     let prop = args[0].clone();
+    if prop == "C17" {
+        // CKKS programs in the AddressSanitizer build: only memory safety is judged here
+        let ctx = DCtx::from_args(&prop, &args[1..]);
+        let armed = pzv_common::driver::arm_sanitizer_callback(&ctx.property, &ctx.root);
+        eprintln!("[C17] pzv-ckks: sanitizer runtime {}", if armed { "present: death callback armed" } else { "ABSENT" });
+        let t = ctx.tier;
+        ctx.run_sub("asan_ckks_programs", t.pick(3_000, 60_000), 64, strategy, mem_only(test));
+        ctx.run_sub("asan_ckks_exact_scratch", t.pick(1_500, 30_000), 64, strategy, mem_only(test_c12));
+        let code = ctx.finish(RULE_C17, &["value / metadata oracles and clean panics are ignored here (C16 / C12 own them)"], &[]);
+        std::process::exit(code);
+    }
     if prop == "C12" {
         let ctx = DCtx::from_args(&prop, &args[1..]);
         let t = ctx.tier;
